@@ -29,6 +29,18 @@ Definition export (p : prim) : str :=
   | POther t => s "<unexportable " ++ t ++ s ">"
   end.
 
+(** NonStringPrimitiveResolver: Go has no constant expression for a non-finite float, so these are emitted as run-time
+    expressions; everything else is the exporter's text.  The text of a float is strconv.FormatFloat(v,'f',-1,64). *)
+Definition literal_code (p : prim) : str :=
+  match p with
+  | PFloat k t =>
+      if str_eqb k (s "float64") && str_eqb t (s "+Inf") then s "func() float64 { var z float64; return 1 / z }()"
+      else if str_eqb k (s "float64") && str_eqb t (s "-Inf") then s "func() float64 { var z float64; return -1 / z }()"
+      else if str_eqb k (s "float64") && str_eqb t (s "NaN") then s "func() float64 { var z float64; return z / z }()"
+      else export p
+  | _ => export p
+  end.
+
 (** compile state: alias table + registered parameter functions (most recent first) *)
 Record cst := { cs_imports : ist; cs_fns : list fnfact }.
 
@@ -81,7 +93,7 @@ Definition mk_arg code raw ps ss ts := {| a_code := code; a_raw := raw; a_params
 
 Definition rk_resolve (k : resolver_kind) (p : prim) (c : cst) : (arg * err) * cst :=
   match k, p with
-  | RNonString, _ => ((mk_arg (fmt1 (k_tpl_dep_value E) (export p)) p [] [] [], None), c)
+  | RNonString, _ => ((mk_arg (fmt1 (k_tpl_dep_value E) (literal_code p)) p [] [] [], None), c)
   | RValue, PStr x =>
       match site_submatch (re_rs_value E) x with
       | None => ((zero_arg, leaf (s "invalid value")), c)
